@@ -113,6 +113,17 @@ def bytesLines (s : Str) : List Str := bytesLinesAux s []
 def strTrim (s cutset : Str) : Str :=
   ((s.dropWhile (cutset.contains ·)).reverse.dropWhile (cutset.contains ·)).reverse
 
+/-- `unicode.IsSpace` in full (White_Space): what `strings.TrimSpace` goes by -/
+def isSpaceU (c : Char) : Bool :=
+  isSpace c || c == '\u1680' || ('\u2000' ≤ c && c ≤ '\u200a') || c == '\u2028' || c == '\u2029' || c == '\u202f' ||
+    c == '\u205f' || c == '\u3000'
+
+/-- `strings.TrimSpace` -/
+def trimSpace (s : Str) : Str := ((s.dropWhile isSpaceU).reverse.dropWhile isSpaceU).reverse
+
+/-- `strings.CutPrefix(s, prefix)`: `s` without the prefix and true, or `s` itself and false -/
+def cutPrefix (s p : Str) : Str × Bool := if p.isPrefixOf s then (s.drop p.length, true) else (s, false)
+
 /-- `m[k]` with the zero value for a missing key -/
 def mapGet [BEq κ] (m : List (κ × ν)) (k : κ) (zero : ν) : ν :=
   match m with
